@@ -14,6 +14,11 @@ pub enum Context {
     InWorker,
     /// two sibling tasks of a user-level `rayon::scope` run the workload at once
     Siblings,
+    /// "run after run on the same thread": a warm-up workload (the same scenario on
+    /// different data) runs first on the caller thread and the same pool, then the real
+    /// one — thread-local and process-global state left behind by an earlier fit must not
+    /// reach a later one
+    Warm,
 }
 
 #[derive(Clone, Debug, Serialize, Deserialize, PartialEq)]
@@ -136,6 +141,11 @@ pub fn parse_policy(s: &str) -> Policy {
 /// fresh pool threads (hence fresh thread-locals), fresh entropy and clock
 /// streams.  Everything `f` can observe of the environment is a function of `env`.
 pub fn run_sim<R: Send>(env: &Env, f: impl Fn() -> R + Sync + Send) -> SimOutcome<R> {
+    run_sim_warm(env, || {}, f)
+}
+
+/// like [`run_sim`]; `warm` is what `Context::Warm` runs before the workload
+pub fn run_sim_warm<R: Send>(env: &Env, warm: impl Fn() + Sync + Send, f: impl Fn() -> R + Sync + Send) -> SimOutcome<R> {
     let cfg = Config {
         threads: env.threads,
         seed: env.sched_seed,
@@ -155,6 +165,11 @@ pub fn run_sim<R: Send>(env: &Env, f: impl Fn() -> R + Sync + Send) -> SimOutcom
                 seams::set_thread_id(1);
                 panic::catch_unwind(AssertUnwindSafe(|| match ctx {
                     Context::External => vec![f()],
+                    Context::Warm => {
+                        // a panic in the warm-up is not the workload's outcome
+                        let _ = panic::catch_unwind(AssertUnwindSafe(&warm));
+                        vec![f()]
+                    }
                     Context::InWorker => vec![rayon::scope(|_| f())],
                     Context::Siblings => {
                         let second: Mutex<Option<R>> = Mutex::new(None);
@@ -184,7 +199,7 @@ pub fn run_sim<R: Send>(env: &Env, f: impl Fn() -> R + Sync + Send) -> SimOutcom
 pub fn run_sim_once<R: Send>(env: &Env, f: impl FnOnce() -> R + Send) -> Result<R, String> {
     let cell = Mutex::new(Some(f));
     let mut e = env.clone();
-    if e.context == Context::Siblings {
+    if e.context == Context::Siblings || e.context == Context::Warm {
         e.context = Context::InWorker;
     }
     let o = run_sim(&e, || {
